@@ -27,7 +27,7 @@ ASSUMPTIONS = [
     'objects other than Memory (requests, packets) do not mutate Memory._write_requests/_read_requests',
     'user progress callbacks and link drivers raising inside the lock are outside the property\'s quantifier',
 ]
-FLOORS = {'R1': 4, 'R2': 6, 'R3': 6, 'R4': 8, 'R5': 4, 'R6': 4, 'R7': 2, 'R8': 1, 'R9': 4}
+FLOORS = {'R1': 4, 'R2': 6, 'R3': 6, 'R4': 10, 'R5': 4, 'R6': 4, 'R7': 2, 'R8': 1, 'R9': 4}
 
 
 def _const(func, node):
@@ -264,6 +264,19 @@ def check(ctx):
     reg = [c for c in walk_own(init.node) if method_call(c, 'add_callback') and norm(c.func.value).endswith('.disconnected') and
            [norm(a) for a in c.args] == ['self._disconnected']]
     ctx.inst('R4', init, 'disconnect-registered', len(reg) == 1, 'Memory must register _disconnected on cf.disconnected')
+
+    # every accepted request is registered before the call returns (no silent early exit)
+    wf_ = mem.method('write')
+    gwf = cfg_of(wf_)
+    app = gwf.find(lambda n: method_call(n, 'append') and norm(n.func.value).startswith('self._write_requests['))
+    ctx.need(len(app) == 1, 'Memory.write: enqueue not found')
+    early = [n for n in gwf.nodes if n.kind == 'return' and not gwf.dominates(app[0][0], n)]
+    ctx.inst('R4', wf_, 'write-always-enqueued', not early, 'write() returns at line %s without queueing the request: it would never be notified' % [n.line for n in early])
+    rf_ = mem.method('read')
+    grf = cfg_of(rf_)
+    regn = [n for n in grf.nodes if n.kind == 'stmt' and isinstance(n.ast, ast.Assign) and norm(n.ast.targets[0]).startswith('self._read_requests[')]
+    bad_ret = [n for n in grf.nodes if n.kind == 'return' and fold_in(rf_, n.ast.value) is not False and not (regn and grf.dominates(regn[0], n))]
+    ctx.inst('R4', rf_, 'read-accepted-iff-registered', not bad_ret, 'read() reports success at line %s without registering the request' % [n.line for n in bad_ret])
 
     # ---------------- R5: FIFO -------------------------------------------------
     ins, rem, starts = [], [], []
